@@ -79,7 +79,8 @@ class USBErrorOther(USBError):
     value = -99
 
 
-ERRORS = {"io": USBErrorIO, "nodevice": USBErrorNoDevice, "timeout": USBErrorTimeout, "pipe": USBErrorPipe, "overflow": USBErrorOverflow, "busy": USBErrorBusy, "other": USBErrorOther}
+ERRORS = {"io": USBErrorIO, "nodevice": USBErrorNoDevice, "timeout": USBErrorTimeout, "pipe": USBErrorPipe, "overflow": USBErrorOverflow, "busy": USBErrorBusy, "other": USBErrorOther,
+          "notfound": USBErrorNotFound, "access": USBErrorAccess, "invalidparam": USBErrorInvalidParam, "interrupted": USBErrorInterrupted, "nomem": USBErrorNoMem, "notsupported": USBErrorNotSupported}
 
 BACKEND = None
 
@@ -220,6 +221,8 @@ class USBDeviceHandle(object):
         self._call_fault("claimInterface")
         if self.closed:
             raise USBErrorNoDevice()
+        if self.device.kernel_driver and interface not in self.kernel_detached:
+            raise USBErrorBusy()          # a kernel driver is bound to the interface (it binds again whenever the device re-enumerates: every new handle sees it)
         self.claimed.add(interface)
 
     def releaseInterface(self, interface):
